@@ -126,6 +126,9 @@ func (s *heapSubj[T]) GenOp(r *Rng, id int, c *Client) Op {
 		}
 		return r.Intn(dom)
 	}
+	if len(s.m) > 0 && len(s.m) <= 20 && r.P(1, 30) {
+		return Op{ID: id, N: "PushOwn"} // the heap's own Values() handed back to it
+	}
 	switch r.Weighted(w...) {
 	case 0:
 		return Op{ID: id, N: "Push", A: []int{pick()}}
@@ -168,6 +171,8 @@ func (s *heapSubj[T]) ModelApply(op Op) {
 			s.m = slices.Delete(slices.Clone(s.m), i, i+1)
 		}
 	case "Peek":
+	case "PushOwn":
+		s.m = append(slices.Clone(s.m), s.m...)
 	case "Clear":
 		s.m = nil
 	case "Fill":
@@ -204,6 +209,19 @@ func (s *heapSubj[T]) Step(op Op, o *Oracle) {
 			_ = vs
 		}
 		s.m = append(slices.Clone(s.m), s.vals(op.A)...)
+	case "PushOwn":
+		vs := ownArgs(s.c.Values())
+		was := slices.Clone(vs)
+		s.push(vs...)
+		if s.scribble {
+			if dmg := argDamage(vs, was, s.d.Str); dmg != "" && s.argDamage == "" {
+				s.argDamage = dmg
+			}
+			for i := range vs {
+				vs[i] = s.d.Probes[0]
+			}
+		}
+		s.m = append(slices.Clone(s.m), s.m...)
 	case "Pop", "Peek":
 		var v T
 		var ok bool
